@@ -84,12 +84,14 @@ TEXT['C04'] = dict(
 
 TEXT['C06'] = dict(
     category='other',
-    text='Bounded stand-in: the real constructors, transposes, reductions, gathers and setupSave run on a simulated MPI that '
-         'raises on any mismatched or missing collective, with seeded arrival jitter and a plot-only rank; route maps are '
-         'recomputed under several interpreter hash seeds and must coincide. The relational (2-safety) trace contracts of '
-         'DESIGN C06 are not built yet.',
+    text='Deductive part: Grid.getMin/getMax (local, whole grid, one and two fixed axes), getBlockForFig, '
+         'DiagnosticCollector.reduce and setupSave are executed in a trace abstraction (rank-local data opaque, every branch on '
+         'them explored both ways) and every path must produce the one collective sequence the contract states as a function of '
+         'the uniform arguments (operation, op, root) - so any two ranks agree. Bounded part: the real constructors, transposes, '
+         'reductions, gathers and setupSave run on a simulated MPI that raises on any mismatched or missing collective, with '
+         'seeded arrival jitter and a plot-only rank; route maps are recomputed under several interpreter hash seeds.',
     note=BOUNDED_NOTE + 'Deadlock freedom beyond trace equality rests on the assumed MPI progress contract.',
-    technique='bounded run-time checking under simulated MPI with collective-matching detection; hash-seed sweep of the route search')
+    technique='2-safety trace contracts in an opaque-data abstraction (all paths, one trace) + bounded run-time checking under simulated MPI; hash-seed sweep of the route search')
 
 TEXT['C05'] = dict(
     category='other',
